@@ -50,6 +50,9 @@ let next_z r = z_of_string (next r)
 let next_int r = int_of_string (next r)
 let rec next_n r n = if n = 0 then [] else let x = next_z r in x :: next_n r (n - 1)
 let next_list r = let n = next_int r in next_n r n
+(* rational: numerator denominator(>0) *)
+let next_q r = let n = next_z r in let d = next_z r in
+  { qnum = n; qden = (match d with Zpos p -> p | _ -> failwith "bad denominator") }
 
 let next_arr r =
   let nd = next_int r in
@@ -148,6 +151,11 @@ let dispatch cmd r =
   | "distance" -> let a = next_arr r in out_lists [distance a; distance_spec a]
   | "gvoronoi" -> let a = next_arr r in out_list (gvoronoi a)
   | "dt1d" -> let f = next_list r in out_lists [dt1d f; minplus1d f]
+  | "otsu" -> let h = next_list r in out_list [otsu h; otsu_spec h]
+  | "rc" -> let h = next_list r in let q = qred (rc h) in out_list [q.qnum; Zpos q.qden]
+  | "gbernsen_px" -> let a = next_q r in let b = next_q r in let c = next_q r in let d = next_q r in let e = next_q r in
+      out_bool (gbernsen_px a b c d e)
+  | "soft_px" -> let f = next_q r in let t = next_q r in let q = qred (soft_threshold_px f t) in out_list [q.qnum; Zpos q.qden]
   | _ -> failwith ("unknown command " ^ cmd)
 
 let () =
